@@ -119,3 +119,29 @@ Proof.
   - exists (Node (HDDict 1 [KInt 2; KInt 1]) [Leaf 1; Leaf 2]). eexists _, _. split; [reflexivity|].
     vm_compute. discriminate.
 Qed.
+
+(* ---------- the leaf iterator: every owned reference is reported, in every state ---------- *)
+Theorem iter_gc_complete s : iter_visited IGcAll s = iter_owned s.
+Proof. reflexivity. Qed.
+
+(* the traversal without the predicate (the code before fix F18) and the one that stops reporting once
+   the iterator is exhausted both miss a reference the iterator still owns *)
+Theorem iter_gc_variants_refuted :
+  (exists s, iter_visited IGcNoPredicate s <> iter_owned s) /\
+  (exists s, it_agenda s = [] /\ iter_visited IGcSkipExhausted s <> iter_owned s).
+Proof.
+  split.
+  - exists {| it_root := Leaf 1; it_agenda := []; it_has_pred := true |}. vm_compute. discriminate.
+  - exists {| it_root := Leaf 1; it_agenda := []; it_has_pred := false |}. split; [reflexivity|]. vm_compute. discriminate.
+Qed.
+
+(* without a predicate the two coincide: the pre-fix traversal was complete exactly for iterators that
+   were given no is_leaf function *)
+Theorem iter_gc_no_predicate_complete_iff s :
+  iter_visited IGcNoPredicate s = iter_owned s <-> it_has_pred s = false.
+Proof.
+  unfold iter_visited, iter_owned. split.
+  - intros H. destruct (it_has_pred s); [|reflexivity]. exfalso.
+    apply (f_equal (@length iref)) in H. rewrite !app_length in H. simpl in H. lia.
+  - intros ->. rewrite app_nil_r. reflexivity.
+Qed.
